@@ -70,7 +70,11 @@ impl Src for KSrc {
 #[cfg(kani)]
 macro_rules! vcover {
     ($s:expr, $c:expr, $name:literal) => {
-        kani::cover!($c, $name)
+        // VERIF_NOCOVER (compile-time env of the second playback attempt): Kani sometimes prints playback tests for the
+        // satisfied covers only; without covers the failing assertion's test is the one it prints
+        if option_env!("VERIF_NOCOVER").is_none() {
+            kani::cover!($c, $name)
+        }
     };
 }
 #[cfg(not(kani))]
